@@ -527,6 +527,12 @@ func (r *reconstructor) reconstructMap(rv reflect.Value) error {
 
 					x := reflect.New(mv.Type())
 					x.Elem().Set(n)
+					// The elements of the map are pointers only if the map is declared that way
+					// (`map[string]*Binary`). For `map[string]Binary`, the value itself is stored
+					// (a pointer is not assignable, `SetMapIndex` panics).
+					if ek := rv.Type().Elem().Kind(); ek != reflect.Ptr && ek != reflect.Interface {
+						x = x.Elem()
+					}
 					rv.SetMapIndex(mk, x)
 					return nil
 				}
